@@ -4,16 +4,23 @@ import (
 	"encoding/json"
 	"fmt"
 	"hash/fnv"
+	"net/http"
+	"net/http/httptest"
+	"net/url"
 	"runtime/debug"
 	"sort"
 	"strings"
 	"time"
 
+	"github.com/gorilla/mux"
 	"github.com/trustbloc/sidetree-core-go/pkg/api/operation"
 	"github.com/trustbloc/sidetree-core-go/pkg/api/protocol"
+
 	"github.com/trustbloc/sidetree-core-go/pkg/document"
+	"github.com/trustbloc/sidetree-core-go/pkg/mocks"
 	"github.com/trustbloc/sidetree-core-go/pkg/patch"
 	"github.com/trustbloc/sidetree-core-go/pkg/processor"
+	restdoc "github.com/trustbloc/sidetree-core-go/pkg/restapi/dochandler"
 	"github.com/trustbloc/sidetree-core-go/pkg/versions/1_0/doctransformer/didtransformer"
 	"github.com/trustbloc/sidetree-core-go/pkg/versions/1_0/doctransformer/metadata"
 	"github.com/trustbloc/sidetree-core-go/pkg/versions/1_0/model"
@@ -74,6 +81,9 @@ type aWorld struct {
 	unpubOp   *aOp
 	deactSnap string
 	deactAt   int
+
+	rest    *mux.Router
+	restCap *optCapture
 
 	weights    map[string]int
 	nontrivial bool
@@ -373,6 +383,10 @@ func (w *aWorld) build(p *opPlan) ([]byte, *refmodel.Op) {
 			spec.AnchorOrigin = origin
 		}
 
+		if p.typ == operation.TypeCreate {
+			spec.SuffixType = []string{"", "", "ipdb"}[w.mark%3]
+		}
+
 		req, err = workload.Build(spec)
 		if err != nil {
 			panic(fmt.Sprintf("client library refused an honest request (%s): %v", p.kind, err))
@@ -382,6 +396,10 @@ func (w *aWorld) build(p *opPlan) ([]byte, *refmodel.Op) {
 			NextUpdateCommit: nu, NextRecoveryCommit: nr, Patches: patches, From: p.from, Until: p.until, CorruptSig: p.corruptSig, SignedSuffix: p.signedSuffix}
 		if origin != nil {
 			raw.AnchorOrigin = origin
+		}
+
+		if p.typ == operation.TypeCreate {
+			raw.SuffixType = []string{"", "", "ipdb"}[w.mark%3]
 		}
 
 		switch {
@@ -1731,8 +1749,30 @@ func (w *aWorld) oracleTimeTravel() {
 	}
 
 	for _, t := range pickT {
-		vt := time.Unix(int64(t), 0).UTC().Format(time.RFC3339)
-		proc, opts := split(document.WithVersionTime(vt))
+		// the same instant may be written in any RFC 3339 offset; half of the time the option travels through
+		// the real REST resolve handler (query parameter parsing) before it reaches the processor
+		zones := []*time.Location{time.UTC, time.FixedZone("", 2*3600), time.FixedZone("", -5*3600), time.FixedZone("", 5*3600+1800)}
+		vt := time.Unix(int64(t), 0).In(zones[w.k.T.Draw(len(zones), "tt.zone")]).Format(time.RFC3339)
+		timeOpt := document.WithVersionTime(vt)
+
+		if w.k.T.Draw(2, "tt.rest") == 0 {
+			ro, code := w.viaREST("versionTime", vt)
+			if code != http.StatusOK {
+				w.fail("C06", "version-time/rest-refused", fmt.Sprintf("the REST resolve handler answered %d for versionTime=%s", code, vt))
+
+				return
+			}
+
+			timeOpt = func(o *document.ResolutionOptions) {
+				for _, f := range ro {
+					f(o)
+				}
+			}
+
+			w.k.Count("probe:version-time-through-rest")
+		}
+
+		proc, opts := split(timeOpt)
 		got, gerr := w.resolve(proc, opts...)
 
 		any := false
@@ -1776,7 +1816,24 @@ func (w *aWorld) oracleTimeTravel() {
 
 	for _, i := range idx {
 		v := pub[i].A.CanonicalReference
-		proc, opts := split(document.WithVersionID(v))
+		idOpt := document.WithVersionID(v)
+
+		if w.k.T.Draw(2, "tt.rest") == 0 {
+			ro, code := w.viaREST("versionId", v)
+			if code != http.StatusOK {
+				w.fail("C06", "version-id/rest-refused", fmt.Sprintf("the REST resolve handler answered %d for versionId=%s", code, v))
+
+				return
+			}
+
+			idOpt = func(o *document.ResolutionOptions) {
+				for _, f := range ro {
+					f(o)
+				}
+			}
+		}
+
+		proc, opts := split(idOpt)
 		got, gerr := w.resolve(proc, opts...)
 		want, werr := w.resolve(truncated(func(j int, _ *aOp) bool { return j <= i }))
 
@@ -1792,6 +1849,32 @@ func (w *aWorld) oracleTimeTravel() {
 	if _, e := w.resolve(w.proc, document.WithVersionID("no-such-version")); e == nil {
 		w.fail("C06", "version-id/unknown", "resolving at an unknown version id succeeded")
 	}
+}
+
+// optCapture stands in for the document handler behind the REST resolve handler: it records the
+// resolution options the REST layer derived from the query string.
+type optCapture struct{ opts []document.ResolutionOption }
+
+func (c *optCapture) ResolveDocument(_ string, opts ...document.ResolutionOption) (*document.ResolutionResult, error) {
+	c.opts = opts
+
+	return &document.ResolutionResult{}, nil
+}
+
+// viaREST sends a resolve request with one query parameter through the real REST handler and returns the options it produced.
+func (w *aWorld) viaREST(param, value string) ([]document.ResolutionOption, int) {
+	if w.rest == nil {
+		w.restCap = &optCapture{}
+		w.rest = mux.NewRouter()
+		w.rest.HandleFunc("/identifiers/{id}", restdoc.NewResolveHandler(w.restCap, &mocks.MetricsProvider{}).Resolve)
+	}
+
+	w.restCap.opts = nil
+
+	rr := httptest.NewRecorder()
+	w.rest.ServeHTTP(rr, httptest.NewRequest(http.MethodGet, "/identifiers/did:sim:"+w.suffix+"?"+param+"="+url.QueryEscape(value), nil))
+
+	return w.restCap.opts, rr.Code
 }
 
 func countUpTo(pub []*aOp, t uint64) int {
